@@ -30,11 +30,70 @@ def context_of(o, prog, dead_macros):
     return ctx
 
 
+def double_import_cases(acc, rng, count):
+    """A file that is imported more than once (under different aliases): its definitions stand for several symbol instances.
+    Every occurrence must lead to the definition in the imported file, and find-references on that definition must return the
+    occurrences of all instances."""
+    for _ in range(count):
+        a = rng.choice(["colour", "width", "speed", "table"]) + str(rng.randrange(10))
+        b = rng.choice(["rows", "cols", "mask"]) + str(rng.randrange(10))
+        lib = "%s: .byte 7\n%s: .byte 9\n" % (a, b)
+        nimp = rng.randrange(2, 4)
+        lines, occ_a, occ_b = [], [], []
+        aliases = []
+        for k in range(nimp):
+            al = "al%d_%s" % (k, a)
+            aliases.append(al)
+            with_b = k == nimp - 1
+            lines.append('.import %s as %s%s from "lib.asm"' % (a, al, (", " + b) if with_b else ""))
+            occ_a.append((len(lines) - 1, 8))
+            if with_b:
+                occ_b.append((len(lines) - 1, 8 + len(a) + 4 + len(al) + 2))
+        for al in aliases:
+            for _ in range(rng.randrange(1, 3)):
+                lines.append(rng.choice(["lda %s", "ldx %s", "inc %s,x"]) % al)
+                occ_a.append((len(lines) - 1, 4))
+        lines.append("ldy %s" % b)
+        occ_b.append((len(lines) - 1, 4))
+        files = {"lib.asm": lib, "main.asm": "\n".join(lines) + "\n"}
+        pr = L.Project(files, open_files=sorted(files))
+        try:
+            for name, dline, occs in ((a, 0, occ_a), (b, 1, occ_b)):
+                acc.evaluations += 1
+                w = {"files": files, "symbol": name}
+                for (ln, ch) in occs:
+                    r = pr.pos_request("textDocument/definition", "main.asm", ln, ch + 1)
+                    res = r.get("result") or []
+                    if "dead" in r or "timeout" in r:
+                        acc.violation("server-died|definition|double-import", "no answer", dict(w, response=r))
+                        return
+                    tgt = [(pr.name_of_uri(x["targetUri"]), x["targetSelectionRange"]["start"]["line"], x["targetSelectionRange"]["start"]["character"]) for x in res]
+                    if tgt[:1] != [("lib.asm", dline, 0)]:
+                        acc.violation("definition-wrong|double-import", "definition of %s at main.asm:%d:%d leads to %s, expected lib.asm:%d:0" % (name, ln, ch, tgt, dline), dict(w, response=r))
+                        break
+                else:
+                    for incl in (True, False):
+                        r = pr.pos_request("textDocument/references", "lib.asm", dline, rng.randrange(0, len(name)), {"context": {"includeDeclaration": incl}})
+                        got = set((pr.name_of_uri(x["uri"]), x["range"]["start"]["line"], x["range"]["start"]["character"]) for x in (r.get("result") or []))
+                        exp = set(("main.asm", ln, ch) for ln, ch in occs) | ({("lib.asm", dline, 0)} if incl else set())
+                        if got != exp:
+                            acc.violation("references-%s|double-import" % ("missing" if exp - got and not got - exp else "differ"),
+                                          "references of %s (%s declaration): missing %s, unexpected %s" % (name, "with" if incl else "without", sorted(exp - got)[:4], sorted(got - exp)[:4]),
+                                          dict(w, response=r, expected=sorted(exp)))
+                            break
+                    else:
+                        acc.count("double_import_symbols_ok")
+                        acc.nontriv("double-import", files["main.asm"], name)
+        finally:
+            pr.close()
+
+
 def shard(idx, n, seed, tier, params):
     acc = Acc()
     probe = Probe()
     rng = rng_for(seed, "c16", idx)
     t_end = time.time() + params["budget"]
+    double_import_cases(acc, rng, 2 if tier == "quick" else 40)
     for i in range(params["programs"] // n):
         if time.time() > t_end:
             acc.count("budget_cut")
